@@ -308,8 +308,36 @@ def drive_giant(rec):
             rec.violation("vec_znx_dft (NTT120) N=%d %d rows: rows %s differ from the same call on that row alone" % (n, rows, bad[:5]), {})
         else:
             ok += 1
-    L.delete_module(modn)
     sp.close()
+    # NTT120 inverse DFT: 4100 result rows of 16 N bytes from one input row (more than 4 GiB of zero extension)
+    rows = 4100
+    sp = Sparse((rows + 1) * 16 * n)
+    if sp.addr is not None:
+        for form in ("vec_znx_idft", "vec_znx_idft_tmp_a"):
+            if not rec.progress("%s on an NTT120 module N=%d res_size=%d a_size=1 (more than 4 GiB of zero extension)" % (form, n, rows)):
+                continue
+            sp.u8(0, rows * 16 * n)[:] = 0x5A
+            a1, d1, g1 = Buf(nb), Buf(32 * n, fill=0x33), Buf(16 * n, fill=0x66)
+            a1.i64[:] = np.random.default_rng(rec.seed + 2).integers(-(1 << 62), 1 << 62, n, dtype=np.int64)
+            L.call("vec_znx_dft", modn, d1, 1, a1, 1, n)
+            d2 = Buf(32 * n)
+            d2.u8[:] = d1.u8
+            tmpn = Buf(L.call("vec_znx_idft_tmp_bytes", modn), fill=0x55)
+            if form == "vec_znx_idft":
+                L.call(form, modn, ctypes.c_void_p(sp.addr), rows, d2, 1, tmpn)
+                L.call(form, modn, g1, 1, d1, 1, tmpn)
+            else:
+                L.call(form, modn, ctypes.c_void_p(sp.addr), rows, d2, 1)
+                L.call(form, modn, g1, 1, d1, 1)
+            rec.case(("giant", "ntt120 " + form))
+            samp = sorted(set([0, 1, 2, 4094, 4095, 4096, 4097, rows - 1] + [rng.randrange(rows) for _ in range(6)]))
+            bad = [i for i in samp if not np.array_equal(sp.u8(i * 16 * n, 16 * n), g1.u8 if i == 0 else np.zeros(16 * n, dtype=np.uint8))]
+            if bad:
+                rec.violation("%s (NTT120) N=%d res_size=%d a_size=1: rows %s are not the inverse transform (row 0) / zero (the others)" % (form, n, rows, bad[:5]), {})
+            else:
+                ok += 1
+        sp.close()
+    L.delete_module(modn)
     rec.data["ok"] = ok
 
 
